@@ -431,8 +431,8 @@ def lockOne (s : State) (now : Int) (addr : Bytes) (coins : Coins) : Outcome Sta
       else .ok (vset s addr v)
     | .tombstoned | .inactive => .ok (vset s addr v)
 
-/-- aggregate lock requests per validator (`updates` map), validators in ascending address order
-    (repair of F3: the Go code ranged over the map in random order) -/
+/-- aggregate lock requests per validator (`updates` map), validators in the order of their first
+    request (repair of F3: the Go code ranged over the map in random order) -/
 def aggregateLocks (reqs : List LockReq) : Outcome (List (Bytes × Coins)) :=
   let agg := reqs.foldl (fun (acc : List (Bytes × Coins)) r =>
     let cur := ((acc.find? (·.1 == r.validator)).map (·.2)).getD []
@@ -440,7 +440,7 @@ def aggregateLocks (reqs : List LockReq) : Outcome (List (Bytes × Coins)) :=
     if acc.any (·.1 == r.validator) then acc.map (fun e => if e.1 == r.validator then (e.1, cur') else e)
     else acc ++ [(r.validator, cur')]) []
   if agg.any (fun e => e.2.any (fun c => !fits256 c.2)) then .panic "int-overflow"
-  else .ok (agg.mergeSort (fun a b => !bytesLt b.1 a.1))
+  else .ok agg
 
 def lock (s : State) (now : Int) (reqs : List LockReq) : Outcome State :=
   if reqs.isEmpty then .ok s
